@@ -1,0 +1,87 @@
+//go:build verif
+
+// Verification hooks for property C09 (add-only, compiled only with -tags verif).
+// Thin accessors / call wrappers, no logic.
+
+package dtlcp
+
+import (
+	x509 "github.com/emmansun/gmsm/smx509"
+)
+
+// VerifBufSizes09 returns the sizes of the per-connection input buffers: the handshake buffer, the
+// current datagram, the pending application data, the reassembly buffers (count and total bytes of
+// data + bitmask) and the non-advancing-record counter.  It takes no lock: call it from the
+// goroutine that runs Handshake/Read (e.g. from inside the PacketConn's ReadFrom).
+func (c *Conn) VerifBufSizes09() (handLen, handCap, rawLen, readLen, pending, pendingBytes, retry int) {
+	for _, fb := range c.pendingFragments {
+		pendingBytes += len(fb.data) + len(fb.received)
+	}
+	return c.handBuf.Len(), c.handBuf.Cap(), len(c.rawInputBuf), len(c.readBuf), len(c.pendingFragments), pendingBytes, c.retryCount
+}
+
+// VerifECCProcessCKX09 calls the ECC processClientKeyExchange on a ClientKeyExchange body.
+func VerifECCProcessCKX09(cfg *Config, sig, enc *Certificate, body []byte) (pre []byte, err error, sentinel bool) {
+	hs := &serverHandshakeState{c: &Conn{config: cfg}, sigCert: sig, encCert: enc}
+	pre, err = (&eccKeyAgreement{}).processClientKeyExchange(hs, &clientKeyExchangeMsg{ciphertext: body})
+	return pre, err, err == errClientKeyExchange
+}
+
+// VerifGetECDHEPublicKey09 calls getECDHEPublicKey on a ClientKeyExchange body.
+func VerifGetECDHEPublicKey09(body []byte) (point []byte, err error, sentinel bool) {
+	k, err := getECDHEPublicKey(body)
+	if k != nil {
+		point = k.Bytes()
+	}
+	return point, err, err == errClientKeyExchange
+}
+
+// VerifECDHEProcessCKX09 calls the ECDHE processClientKeyExchange with the given key-agreement object.
+func VerifECDHEProcessCKX09(ke SM2KeyAgreement, peer []*x509.Certificate, body []byte) (pre []byte, err error, sentinel bool) {
+	hs := &serverHandshakeState{peerCertificates: peer}
+	pre, err = (&sm2ECDHEKeyAgreement{ke: ke}).processClientKeyExchange(hs, &clientKeyExchangeMsg{ciphertext: body})
+	return pre, err, err == errClientKeyExchange
+}
+
+// VerifECCProcessSKX09 calls the ECC processServerKeyExchange on a ServerKeyExchange body.
+func VerifECCProcessSKX09(peer []*x509.Certificate, cr, sr, body []byte) (err error, sentinel bool) {
+	hs := &clientHandshakeState{hello: &clientHelloMsg{random: cr}, serverHello: &serverHelloMsg{random: sr}, peerCertificates: peer}
+	err = (&eccKeyAgreement{}).processServerKeyExchange(hs, &serverKeyExchangeMsg{key: body})
+	return err, err == errServerKeyExchange
+}
+
+// VerifECDHEProcessSKX09 calls the ECDHE processServerKeyExchange on a ServerKeyExchange body; tmp is
+// the peer's temporary public key it recorded (nil when none).
+func VerifECDHEProcessSKX09(peer []*x509.Certificate, cr, sr, body []byte) (tmp []byte, err error, sentinel bool) {
+	hs := &clientHandshakeState{hello: &clientHelloMsg{random: cr}, serverHello: &serverHelloMsg{random: sr}, peerCertificates: peer}
+	ka := &sm2ECDHEKeyAgreement{}
+	err = ka.processServerKeyExchange(hs, &serverKeyExchangeMsg{key: body})
+	if ka.peerTmpKey != nil {
+		tmp = ka.peerTmpKey.Bytes()
+	}
+	return tmp, err, err == errServerKeyExchange
+}
+
+// VerifECCGenerateCKX09 calls the ECC generateClientKeyExchange against the given server certificates.
+func VerifECCGenerateCKX09(cfg *Config, peer []*x509.Certificate) (body []byte, err error) {
+	hs := &clientHandshakeState{c: &Conn{config: cfg}, hello: &clientHelloMsg{vers: VersionTLCP}, peerCertificates: peer}
+	_, ckx, err := (&eccKeyAgreement{}).generateClientKeyExchange(hs)
+	if ckx != nil {
+		body = ckx.ciphertext
+	}
+	return body, err
+}
+
+// VerifECDHEClientKX09 calls the ECDHE processServerKeyExchange and then generateClientKeyExchange with
+// the client's encryption key pair enc (nil: no CertificateRequest was received).
+func VerifECDHEClientKX09(cfg *Config, peer []*x509.Certificate, cr, sr, skx []byte, enc *Certificate) (body []byte, errSKX error, sentinelSKX bool, errCKX error) {
+	hs := &clientHandshakeState{c: &Conn{config: cfg}, hello: &clientHelloMsg{vers: VersionTLCP, random: cr}, serverHello: &serverHelloMsg{random: sr},
+		peerCertificates: peer, encCert: enc}
+	ka := &sm2ECDHEKeyAgreement{}
+	errSKX = ka.processServerKeyExchange(hs, &serverKeyExchangeMsg{key: skx})
+	_, ckx, errCKX := ka.generateClientKeyExchange(hs)
+	if ckx != nil {
+		body = ckx.ciphertext
+	}
+	return body, errSKX, errSKX == errServerKeyExchange, errCKX
+}
